@@ -142,10 +142,22 @@ func genUnsortedDoc(t *rapid.T) interface{} {
 		// the last key has another type: by-expression functions fail after partial work
 		people[n-1].(map[string]interface{})["age"] = "old"
 	}
+	nums := []interface{}{3.0, 1.0, 2.0, 1.0}
+	strs := []interface{}{"c", "a", "b"}
+	// sometimes a wrong-typed element at the end: the element-typed array checks
+	// (array[number], array[string]) then fail on this document only
+	switch rapid.IntRange(0, 5).Draw(t, "poisonArrays") {
+	case 0:
+		nums = append(nums, "x")
+	case 1:
+		strs = append(strs, 7.0)
+	case 2:
+		nums, strs = strs, nums
+	}
 	return map[string]interface{}{
 		"people": people,
-		"nums":   []interface{}{3.0, 1.0, 2.0, 1.0},
-		"strs":   []interface{}{"c", "a", "b"},
+		"nums":   nums,
+		"strs":   strs,
 		"nested": []interface{}{[]interface{}{2.0, 1.0}, []interface{}{0.0}, "x"},
 		"o1":     map[string]interface{}{"k": 1.0, "j": []interface{}{2.0, 1.0}},
 		"o2":     map[string]interface{}{"k": 2.0, "l": 3.0},
@@ -158,7 +170,7 @@ var c06Templates = []string{
 	"map(&age, people)", "people[*].tags | [0]", "people[?age > `1`] | sort_by(@, &age)", "sort_by(people, &age)[0].tags", "people[::-1]",
 	"nested[] | sort(@)", "not_null(nums, strs)", "values(o1)", "keys(o1)", "people | sort_by(@, &to_string(age))", "[nums, strs][] | reverse(@)",
 	"sort_by(people[*], &age)", "people[*].{n: name, t: sort(tags)}", "sort_by(nested[?type(@)=='array'], &length(@))", "o1.j | sort(@) | reverse(@)",
-	"max_by(people, &age).tags | sort(@)", "join(',', strs)", "sum(nums)", "avg(nums)", "contains(nums, `1`)", "sort_by(people, &age) | [0] | merge(@, o1)",
+	"max_by(people, &age).tags | sort(@)", "join(',', strs)", "sum(nums)", "avg(nums)", "contains(nums, `1`)", "max(nums)", "min(strs)", "sort(strs) | join('', @)", "length(nums)", "sort_by(people, &age) | [0] | merge(@, o1)",
 }
 
 // TestC06: every function in every position over documents with unsorted arrays,
